@@ -14,7 +14,9 @@ COQ_SHARD = 150
 REPLAY_KIND = 'history'
 EXHAUSTIVE = {'quick': False, 'thorough': False}
 RULE = ('seeded random histories of 5..40 operations (create / attribute assignment / multi-column set / syncUpdate / destroySelf / '
-        'get with and without a cleared cache / select) over an eager and a lazyUpdate class, each with 0..6 listeners drawn from the six '
+        'get with and without a cleared cache / select) over an eager and a lazyUpdate class -- each, in 40 % of the cases, a plain subclass '
+        '(base declares a and b, subclass c; listeners registered on the base before the subclass statement, on the subclass, and on the base '
+        'afterwards) --, each with 0..6 listeners drawn from the six '
         'row signals x {log, kwargs[c]=v, kwargs.pop(c), post_funcs.append}; streams: valid (no ill-typed value), failing (ill-typed values, missing required column, unknown/destroyed instances), keyset (assignments '
         'whose receivers add/remove a key: delegated to set()), raising (0..3 more listeners per class that raise once, or append a callback '
         'that raises once, at any of the six signals; the history goes on: the later successful operations are judged), chain (0..8 listeners registered before/between/after the class statements of '
@@ -39,6 +41,9 @@ TRUSTED_BASE = [
     'create / create-finished signals (a raising destroy listener inside the clean-up of a failed chain creation is not modelled); '
     'every case starts with the per-thread list of postponed RowCreatedSignals removed if a previous case left one (cases are judged on their own)',
     'the instance an operation uses is the one its create returned (fetches never replace it)',
+    'plain-subclass variation: the model has no notion of it -- a plain subclass must behave like a plain class with the listeners cloned from '
+    'its base at the class statement followed by its own; base listeners registered later must stay silent (numbered from 1000 in the harness)',
+    'an operation that makes no progress for 4 s is recorded as OpTimeout and ends its history (deadlock guard)',
     'the correspondence harness tools/props/c19.py (writes are read off the SQL text passed to the connection\'s _executeRetry) and the cases.v evaluation',
 ]
 
@@ -196,6 +201,13 @@ def plain_case(rng, stream):
         for k in range(2):
             add_raisers(rng, lis[k], rng.choice([SIGS, ['create', 'created'], ['created'], ['updated', 'destroyed', 'create']]),
                         rng.choice([0, 1, 1, 2, 3]))
+    # variation: the class is a plain subclass (base declares a and b, the subclass c); listeners come from the base
+    # (registered before the subclass statement: cloned) and from the subclass; some more on the base afterwards
+    sub = [None, None]
+    for k in range(2):
+        if rng.random() < 0.4:
+            sub[k] = {'split': rng.randint(0, len(lis[k])),
+                      'late': [rand_listener(rng, SIGS, rewrite=(rng.random() < 0.5)) for _ in range(rng.choice([0, 1, 1, 2]))]}
     tabs = [list(enumerate(l)) for l in lis]
     nops = rng.randint(5, 40)
     ops = []
@@ -247,7 +259,10 @@ def plain_case(rng, stream):
             ops.append(['get', k, rid, rng.random() < 0.6])
         else:
             ops.append(['select', k])
-    return {'kind': 'plain', 'stream': stream, 'lis': lis, 'ops': ops}
+    case = {'kind': 'plain', 'stream': stream, 'lis': lis, 'ops': ops}
+    if sub[0] or sub[1]:
+        case['sub'] = sub
+    return case
 
 
 def keyset_case(rng):
@@ -309,6 +324,16 @@ def corpus():
          'ops': [['create', 0, [[0, 1]]], ['assign', 0, 1, 0, 5], ['set', 0, 1, [[2, 3], [1, 'q']]], ['get', 0, 1, True],
                  ['create', 1, [[2, 1], [0, 4]]], ['assign', 1, 1, 1, 'x'], ['set', 1, 1, [[0, 2]]], ['sync', 1, 1], ['sync', 1, 1],
                  ['select', 1], ['destroy', 0, 1], ['get', 0, 1, True], ['destroy', 1, 1]]},
+        # witnesses of the fixed finding plain_subclass_inherited_setters_not_plain (66a07d3): a plain subclass, listeners on the
+        # base (cloned) -- set() of an inherited and an own column is ONE before-event, ONE UPDATE, ONE after-event; an
+        # assignment of an inherited column whose receiver adds a key likewise; set() with that receiver must not deadlock
+        {'kind': 'plain', 'stream': 'valid', 'sub': [{'split': 2, 'late': [['update', ['log']]]}, None],
+         'lis': [[['update', ['log']], ['updated', ['log']]], []],
+         'ops': [['create', 0, [[0, 1]]], ['assign', 0, 1, 0, 5], ['assign', 0, 1, 2, 2], ['set', 0, 1, [[0, 6], [2, 3]]]]},
+        {'kind': 'plain', 'stream': 'keyset', 'sub': [{'split': 1, 'late': []}, {'split': 1, 'late': [['updated', ['post', 9]]]}],
+         'lis': [[['update', ['set', 1, 'x']], ['updated', ['log']]], [['update', ['log']], ['updated', ['post', 1]]]],
+         'ops': [['create', 0, [[0, 1]]], ['assign', 0, 1, 0, 5], ['set', 0, 1, [[0, 6], [2, 3]]], ['create', 1, [[0, 2]]],
+                 ['set', 1, 1, [[1, 'q'], [2, 4]]], ['assign', 1, 1, 0, 3], ['sync', 1, 1], ['destroy', 0, 1], ['destroy', 1, 1]]},
         # a create-finished receiver / callback raises once; the later creations (same class, other class, chain) must still get theirs
         {'kind': 'plain', 'stream': 'raising', 'lis': [[['created', ['raise']], ['created', ['log']]], [['created', ['post', 1]]]],
          'ops': [['create', 0, [[0, 1]]], ['create', 0, [[0, 2]]], ['create', 1, [[0, 3]]], ['assign', 0, 2, 0, 5]]},
@@ -487,41 +512,60 @@ def _wrap(conn, trace, tables, namemap):
     return orig
 
 
+class OpTimeout(Exception):
+    """an operation made no progress (a deadlock on _SO_writeLock)"""
+
+
+def _alarm(*_a):
+    raise OpTimeout()
+
+
 def run_plain(case):
+    import signal
     from sqlobject import SQLObject, IntCol, StringCol, events
     from sqlobject.sqlite.sqliteconnection import SQLiteConnection
     _counter[0] += 1
     reg = 'verif_c19_%d' % _counter[0]
     conn = SQLiteConnection(':memory:')
 
-    class VE(SQLObject):
-        class sqlmeta:
-            table = 't_e'
-            registry = reg
-        _connection = conn
-        a = IntCol()
-        b = StringCol(default=None)
-        c = IntCol(default=7)
-
-    class VL(SQLObject):
-        class sqlmeta:
-            table = 't_l'
-            registry = reg
-            lazyUpdate = True
-        _connection = conn
-        a = IntCol()
-        b = StringCol(default=None)
-        c = IntCol(default=7)
-    classes = [VE, VL]
-    for k in classes:
-        k.createTable()
     trace, keep = [], []
     sigs = _signals()
-    for k in range(2):
-        for li, (sig, act) in enumerate(case['lis'][k]):
-            r = _make_receiver(events, trace, classes, sig, act, li)
+    sub = case.get('sub') or [None, None]
+    classes = [None, None]
+
+    def listen_all(items, k, target, base=0):
+        for li, (sig, act) in items:
+            r = _make_receiver(events, trace, classes, sig, act, li + base)
             keep.append(r)
-            events.listen(r, classes[k], sigs[sig])
+            events.listen(r, target, sigs[sig])
+
+    for k, (table, lazy) in enumerate((('t_e', False), ('t_l', True))):
+        meta = {'table': table, 'registry': reg, 'lazyUpdate': lazy}
+        numbered = list(enumerate(case['lis'][k]))
+        if not sub[k]:
+            # the plain class itself
+            K = type(SQLObject)('VC19_%d' % k, (SQLObject,), {
+                'sqlmeta': type('sqlmeta', (), dict(meta)), '_connection': conn,
+                'a': IntCol(), 'b': StringCol(default=None), 'c': IntCol(default=7)})
+            classes[k] = K
+            listen_all(numbered, k, K)
+        else:
+            # a plain (non-inheritable) subclass: the base declares a and b, the subclass adds c; the first `split`
+            # listeners are registered on the BASE before the subclass statement (events.py clones them to the
+            # subclass), the others on the subclass; `late` ones on the base afterwards (they must never hear of
+            # subclass instances; numbered from 1000)
+            B = type(SQLObject)('VC19Base_%d' % k, (SQLObject,), {
+                'sqlmeta': type('sqlmeta', (), dict(meta, table=table + '_base')), '_connection': conn,
+                'a': IntCol(), 'b': StringCol(default=None)})
+            classes[k] = B          # receivers look their class up when called, not now
+            listen_all(numbered[:sub[k]['split']], k, B)
+            K = type(SQLObject)('VC19Sub_%d' % k, (B,), {
+                'sqlmeta': type('sqlmeta', (), dict(meta)), 'c': IntCol(default=7)})
+            classes[k] = K
+            listen_all(numbered[sub[k]['split']:], k, K)
+            listen_all(list(enumerate(sub[k]['late'])), k, B, base=1000)
+    for k in classes:
+        k.createTable()
     tables = ['t_e', 't_l']
     orig = _wrap(conn, trace, tables, {'a': 0, 'b': 1, 'c': 2})
     handles = [{}, {}]
@@ -575,16 +619,23 @@ def run_plain(case):
 
     steps = []
     try:
+        old_handler = signal.signal(signal.SIGALRM, _alarm)
         for op in case['ops']:
             del trace[:]
+            signal.setitimer(signal.ITIMER_REAL, 4.0)
             try:
                 out = do(op)
             except Exception as e:  # noqa
                 name = type(e).__name__
                 out = ['exn', EXC.get(name, 'other:' + name)]
+            signal.setitimer(signal.ITIMER_REAL, 0)
             tb = dump()
             steps.append({'out': out, 'tr': list(trace), 'tables': tb, 'handles': hview()})
+            if out == ['exn', 'other:OpTimeout']:
+                break           # the instance's write lock is still held: the rest of the history would hang again
     finally:
+        signal.setitimer(signal.ITIMER_REAL, 0)
+        signal.signal(signal.SIGALRM, old_handler)
         conn._executeRetry = orig
         conn.cache.clear()
         try:
@@ -1034,11 +1085,11 @@ def nontrivial(c, o):
 
 
 def key(c):
-    return [c['kind'], c.get('lis') or c.get('script'), c['ops']]
+    return [c['kind'], c.get('lis') or c.get('script'), c.get('sub'), c['ops']]
 
 
 def distribution(cases, obs):
-    d = {'streams': {}, 'ops': {}, 'outcomes': {}, 'deliveries': 0, 'post_callbacks': 0, 'writes': 0, 'listeners': {},
+    d = {'plain_subclass_classes': sum(1 for c in cases for x in (c.get('sub') or []) if x), 'streams': {}, 'ops': {}, 'outcomes': {}, 'deliveries': 0, 'post_callbacks': 0, 'writes': 0, 'listeners': {},
          'delegated_assignments': 0, 'suppress_flag_seen': 0}
     for c, o in zip(cases, obs):
         d['streams'][c['stream']] = d['streams'].get(c['stream'], 0) + 1
